@@ -79,6 +79,18 @@ def gen_case(rng, k):
             if nonneg:
                 call["presel"] = rng.choice(nonneg)
         calls.append(call)
+    # labels change between calls (set_labels is public; grand-canonical notifications do the same): whatever the move remembered about the
+    # particle it displaced last must not survive a relabelling
+    r2 = random.Random(c["seed"] ^ 0xC11)
+    if isinstance(c["expr"], int) and r2.random() < 0.4:
+        nonneg = [x for x in c["leaves"][c["expr"]]["labels"] if x >= 0]
+        if nonneg:
+            lab = r2.choice(nonneg)
+            calls = [{"presel": lab}, {"presel": lab, "relabel": "roll"}, {"relabel": "roll"}]
+    else:
+        for call in calls[1:]:
+            if r2.random() < 0.3:
+                call["relabel"] = "roll"
     c["calls"] = calls
     return c
 
